@@ -999,13 +999,30 @@ def r18d(R):
     for n in inc_true:
         if ('%s is None' % flt, True) in A.path_facts(gen, n):
             inc_var = n.ast.targets[0].id
+    if inc_var is None:
+        # the decision may live in a helper: include = helper(filter, name),
+        # which must answer True when the filter is None
+        for n in cfg.nodes:
+            if n.kind == 'stmt' and isinstance(n.ast, ast.Assign) \
+                    and isinstance(n.ast.value, ast.Call) \
+                    and isinstance(n.ast.targets[0], ast.Name) \
+                    and any(norm(a) == flt for a in n.ast.value.args):
+                for g in A.callees(gen, n.ast.value):
+                    i = [norm(a) for a in n.ast.value.args].index(flt)
+                    params = [p for p in g.params if p not in ('self', 'cls')]
+                    if i < len(params):
+                        try:
+                            if A.peval(g, {params[i]: None}) is True:
+                                inc_var = n.ast.targets[0].id
+                        except Unfoldable:
+                            pass
     R.check(gen, 'filter is None -> include every light', inc_var is not None,
             'without a filter (the capture button, `lscap -s`) a light is not '
             'unconditionally included: the capture is empty or raises')
-    uses = [n for n in cfg.nodes for c in n.calls()
+    uses = [(gen, n) for n in cfg.nodes for c in n.calls()
             if isinstance(c.func, ast.Attribute) and isinstance(c.func.value, ast.Name)
             and c.func.value.id == flt]
-    ok = all(('%s is None' % flt, False) in A.path_facts(gen, n) for n in uses)
+    ok = all(('%s is None' % flt, False) in A.path_facts(g, n) for g, n in uses)
     R.check(gen, 'the filter is consulted only when there is one', ok,
             'the filter object is used on the path where it is None')
     parts = [n for n in cfg.nodes for c in n.calls()
